@@ -44,6 +44,9 @@ CHECKS = {
  "C09": dict(cat="exploration", technique="state oracle over generated (store, pod set) pairs driven through the real gcPods in a private netns, pass by pass; concurrent RPC traffic and re-created pods during GC; kernel rule inspection",
      text="Records are produced by real ADDs and then turned into running / exited / vanished / moved / sticky / recreated / lookup-failing pods, on the kernel-attached ENI and on ENIs that are not attached, with optional List failure, a persistently failing store delete and concurrent ADD/GET or re-creation + ADD during the pass. After each of five passes: existing and lookup-failing pods keep record and ownership, absent pods are collected within two (sticky: three) passes even when another record's clean-up fails, planted ip rules of collected pods are gone from the kernel, the last pass changes nothing.",
      note="Runs under unshare -n -m; lo (MAC reported as empty) is the only kernel device, so 'ENI attached' = MAC \"\". API server simulated, incl. the Raw field selector the fake client ignores.", ref="§2 C09"),
+ "C12": dict(cat="exploration", technique="runtime oracle on AllocIP replies of the real networkService in local / CRD / PodENI mode (independent subnet + gateway evaluator, default-route and primary-interface counting, reply-vs-record comparison) + in-package differential monitor of the plugin's parseSetupConf/parseCheckConf/parseTearDownConf against the datapath table",
+     text="Replies are produced by the real daemon over (i) the local pool on the simulated cloud, (ii) the real CRDV2.multiIP over generated Node CRs and (iii) the real eni.Remote over generated PodENI objects with 1..4 interfaces, trunk or not, 0/1/2/all default-route flags, with and without eth0; each reply must name one default route and the primary interface, carry addresses inside the reported subnet with the third-from-last gateway != address, and malformed allocations must be rejected. In plugin/terway (overlay) 40k generated (daemon configuration x CNI configuration) pairs are parsed for ADD/CHECK/DEL and compared field by field and against the (IP type, trunk, vlan mode) table.",
+     note="Node CR / PodENI contents are generated well-formed apart from the flag patterns under test; MAC \"\" resolves to lo where the plugin needs a kernel device.", ref="§2 C12"),
 }
 NOT_YET = {}
 
